@@ -287,10 +287,12 @@ impl BuildJob<'_> {
         let firstline = {
             let f = File::open(df.do_dir.join(&df.do_file)).map_err(RedoError::opaque_error)?;
             let mut f = BufReader::new(f);
-            let mut firstline = String::new();
-            f.read_line(&mut firstline)
+            // Only a `#!/...` line matters here; a script may contain any bytes
+            // (a comment in Latin-1, say) and is run all the same.
+            let mut firstline = Vec::new();
+            f.read_until(b'\n', &mut firstline)
                 .map_err(RedoError::opaque_error)?;
-            firstline
+            String::from_utf8_lossy(&firstline).into_owned()
         };
         let firstline = firstline.trim();
         if firstline.starts_with("#!/") {
